@@ -219,10 +219,15 @@ def run_history(case):
         n = len(vals)
         splits = [None] + list(range(1, n)) + (["reuse"] if (n >= 3 and hist[0] == hist[2]) else [])
         fails = [(None, None)] + [(p, k) for p in range(n) for k in ("nan", "never")] + ([(n - 1, "real")] if item in ("NeoHooke",) else [])
-        for split in splits:
-            for (fpos, fkind) in (fails if split is None else (fails[:1] if split == "reuse" else fails[:1] + [f for f in fails[1:] if f[1] == "nan"])):
+        for split in splits + ["stateless-first"]:
+            for (fpos, fkind) in (fails if split is None else (fails[:1] if split in ("reuse", "stateless-first") else fails[:1] + [f for f in fails[1:] if f[1] == "nan"])):
                 mesh, region, field, um, base, body, bounds, lc, L = build(model, item)
                 poison = Poison(field, lc["dof1"])
+                # ("stateless-first": the item list starts with an item that carries no state variables -- a point load of zero --
+                #  and the probe item comes before the body as well; the step is otherwise the undivided one)
+                order_first = split == "stateless-first"
+                if order_first:
+                    split = None
                 pv = [0] * n
                 moves = list(vals)
                 if fkind == "nan":
@@ -233,6 +238,8 @@ def run_history(case):
                     moves[fpos] = -1.5 * L  # inverts the body: no solution
                 scaled = [m * L for m in moves] if fkind != "real" else [m * L if i != fpos else moves[i] for i, m in enumerate(moves)]
                 items = [body, poison]
+                if order_first:
+                    items = [fem.PointLoad(field, [0], values=np.zeros(3)), poison, body]
                 if split is None:
                     steps = [fem.Step(items, ramp={bounds["move"]: scaled, poison: pv}, boundaries=bounds)]
                 elif split == "reuse":
@@ -258,7 +265,7 @@ def run_history(case):
                     raised = e
                 c.trans += n
                 c.traces += 1
-                sub = f"hist={list(hist)}/split={split}/fail={fpos},{fkind}"
+                sub = f"hist={list(hist)}/split={split if not order_first else 'stateless-first'}/fail={fpos},{fkind}"
                 expect_ok = n if fpos is None else fpos
                 if fkind == "real" and raised is None:
                     # a non-physical increment may still have a (non-physical) root: then the history is a clean one
